@@ -7,6 +7,7 @@ import (
 	"net/netip"
 	"os"
 	"os/exec"
+	"runtime"
 	"strings"
 	"syscall"
 	"time"
@@ -66,40 +67,103 @@ func runListenStop(o Opts) error {
 		}
 		c.Close()
 		time.Sleep(block + 300*time.Millisecond) // let the callback and the library goroutines finish
+		// the event the reader had already taken from the socket while the first callback was busy is delivered too
+		// (the third may still have been in the socket when it was closed)
+		if l.events < 2 {
+			fmt.Printf("LISTENSTOP: %d of the events read before the stop signal were delivered (callback busy for %v)\n", l.events, block)
+			os.Exit(4)
+		}
+	}
+	// a Listen that cannot start (port 0, port in use) returns an error - it neither panics nor leaves goroutines behind
+	occupied, err := net.ListenUDP("udp4", &net.UDPAddr{IP: net.IPv4(127, 0, 0, 1)})
+	if err == nil {
+		defer occupied.Close()
+		time.Sleep(50 * time.Millisecond)
+		g0 := runtime.NumGoroutine()
+		for i := 0; i < 6; i++ {
+			port := uint16(occupied.LocalAddr().(*net.UDPAddr).Port)
+			if i%2 == 1 {
+				port = 0
+			}
+			u := uhppote.NewUHPPOTE(types.BindAddrFrom(netip.IPv4Unspecified(), 0), types.BroadcastAddr{}, types.ListenAddrFrom(netip.AddrFrom4([4]byte{127, 0, 0, 1}), port), 500*time.Millisecond, nil, false)
+			q := make(chan os.Signal, 1)
+			if err := u.Listen(&slowListener{}, q); err == nil {
+				fmt.Println("LISTENSTOP: Listen on an unusable port returned no error")
+				os.Exit(5)
+			}
+		}
+		time.Sleep(200 * time.Millisecond)
+		if g1 := runtime.NumGoroutine(); g1 > g0 {
+			fmt.Printf("LISTENSTOP: %d goroutines left behind by 6 failed Listen calls\n", g1-g0)
+			os.Exit(6)
+		}
 	}
 	fmt.Println("LISTENSTOP: ok")
 	return nil
 }
 
-// parent side
-func listenStopChild(s *Sink) {
+// parent side: which of the child's findings concern the calling property
+//
+//	crash   - a panic took the process down            (C04, C10)
+//	hang    - Listen did not return / the child hung    (C09, C10)
+//	dropped - an event read before the stop was lost    (C10)
+//	noerror - Listen on an unusable port returned nil   (C10)
+//	leak    - goroutines left behind by failed starts   (C09)
+func listenStopChild(s *Sink, concerns ...string) {
 	cmd := exec.Command(os.Args[0], "LISTENSTOP")
 	var out bytes.Buffer
 	cmd.Stdout, cmd.Stderr = &out, &out
 	done := make(chan error, 1)
 	if err := cmd.Start(); err != nil {
-		s.Extra["listen_shutdown_child"] = "not run: " + err.Error()
+		s.Extra["listen_lifecycle_child"] = "not run: " + err.Error()
 		return
 	}
 	go func() { done <- cmd.Wait() }()
 	var err error
+	hung := false
 	select {
 	case err = <-done:
 	case <-time.After(30 * time.Second):
 		cmd.Process.Signal(syscall.SIGKILL)
-		err = fmt.Errorf("hung")
+		hung = true
 	}
 	txt := out.String()
-	if err != nil || !strings.Contains(txt, "LISTENSTOP: ok") {
+	s.Extra["listen_lifecycle_child"] = "ran"
+	if !hung && err == nil && strings.Contains(txt, "LISTENSTOP: ok") {
+		return
+	}
+	kind := "crash"
+	code := -1
+	if ee, ok := err.(*exec.ExitError); ok {
+		code = ee.ExitCode()
+	}
+	switch {
+	case hung || code == 3:
+		kind = "hang"
+	case strings.Contains(txt, "panic:"):
+		kind = "crash"
+	case code == 4:
+		kind = "dropped"
+	case code == 5:
+		kind = "noerror"
+	case code == 6:
+		kind = "leak"
+	}
+	s.Extra["listen_lifecycle_child"] = "finding: " + kind
+	for _, c := range concerns {
+		if c != kind {
+			continue
+		}
 		tail := txt
 		if len(tail) > 1500 {
 			tail = tail[:1500]
 		}
-		what := "the process crashed or hung while the event listener was shut down with events pending and a slow OnEvent callback"
+		what := "listener lifecycle (" + kind + ")"
 		if i := strings.Index(txt, "panic:"); i >= 0 {
-			what = "the process crashed while the event listener was shut down with events pending: " + strings.SplitN(txt[i:], "\n", 2)[0]
+			what = "the process crashed in the event listener's start/stop path: " + strings.SplitN(txt[i:], "\n", 2)[0]
+		} else if i := strings.Index(txt, "LISTENSTOP: "); i >= 0 {
+			what = "listener lifecycle: " + strings.SplitN(txt[i+12:], "\n", 2)[0]
 		}
-		s.Fail(map[string]any{"op": "listen-shutdown", "output": tail}, what)
+		s.Fail(map[string]any{"op": "listen-shutdown", "kind": kind, "output": tail}, what)
 	}
-	s.Extra["listen_shutdown_child"] = "ran"
 }
